@@ -239,6 +239,31 @@ def run(ctx) -> None:
     loops = [n for n in walk_local(cs.node) if isinstance(n, ast.For)]
     ok = len(loops) == 1 and bool(solve([f"for _K in {NM}: ...", f"_R[_K] = {ST2}.values[_K]", f"{ST2}.values[_K] is not {SN2}", "return _R"], cs.node))
     rep.add("C16.R3", f"{cs.qname}", ok, cs.loc(), "selected collector iterates the requested names and drops the sentinel by identity" if ok else "the selected-outputs collector can return names outside the selection or a sentinel value")
+    # on_missing decides about *every* selected name that was not produced: in the selected collector, a requested name
+    # that is absent from the state always lands in the list handed to the policy handler (no further condition such
+    # as 'could have been computed in this scope')
+    from .common import must_reach_in_iteration
+
+    scfg = ctx.cfg(cs)
+    hm_calls = [c_ for c_ in db.calls_in(cs) if "_handle_missing_outputs" in call_names(db, c_, cs) or any(cal.func is not None and any(isinstance(x, ast.Raise) for x in walk_local(cal.func.node)) and "missing" in cal.func.name for cal in db.resolve_call(c_, cs))]
+    mlist = hm_calls[0].args[0].id if hm_calls and hm_calls[0].args and isinstance(hm_calls[0].args[0], ast.Name) else None
+    sloops = [n for n in scfg.nodes if n.kind == "for" and isinstance(n.ast.target, ast.Name) and isinstance(n.ast.iter, ast.Name) and n.ast.iter.id == NM]
+    ok_m, why_m = False, "the hand-over of missing names to the policy handler was not recognised"
+    if mlist and sloops:
+        K = sloops[0].ast.target.id
+        adds = [n for n in scfg.nodes if any(isinstance(c_.func, ast.Attribute) and c_.func.attr == "append" and isinstance(c_.func.value, ast.Name) and c_.func.value.id == mlist and c_.args and src(c_.args[0]) == K for c_ in scfg.calls_at(n))]
+        ok_m = bool(adds) and must_reach_in_iteration(scfg, sloops[0], adds, {f"{K} in {ST2}.values": False, f"{K} not in {ST2}.values": True})
+        why_m = "every requested name that is absent from the state is handed to the on_missing policy" if ok_m else "a requested name that is absent from the state can be left out of the list the on_missing policy sees (an extra condition on recording it): with entry points, a selected but unproduced upstream output is silently ignored under on_missing='warn'/'error'"
+    elif mlist:
+        # comprehension form: missing = [k for k in names if k not in state.values]
+        for d in db.local_defs(cs).get(mlist, []):
+            v = getattr(d, "value", None)
+            if isinstance(v, ast.ListComp) and len(v.generators) == 1 and src(v.generators[0].iter) == NM:
+                conds = [src(i) for i in v.generators[0].ifs]
+                K = src(v.generators[0].target)
+                ok_m = conds == [f"{K} not in {ST2}.values"]
+                why_m = "every requested name that is absent from the state is handed to the on_missing policy" if ok_m else f"the list of missing names is filtered by {conds}: more than absence from the state decides whether the policy sees a name"
+    rep.add("C16.R5", f"{cs.qname}:every-missing-name-reaches-policy", ok_m, cs.loc(), why_m)
     # sentinel passed is the module constant
     sent_ok = all(any(isinstance(a, ast.Name) and a.id == "_EMIT_SENTINEL" for a in c.args) for c in db.calls_in(fo) if call_names(db, c, fo) & {ca.name, cs.name})
     check_sentinel_by_identity(ctx, "C16.R3")
